@@ -115,7 +115,7 @@ def task_part():
     acc, rej, _ = check_task.validate(script, True, ["t1", "t2", "t3"], runs, WD, "st_t")
     record("Task_Trace accepts executions of real threads", err is None and acc == len(runs) and not rej)
     base = copy.deepcopy(runs[0])
-    base[-1]["obs"]["npolls"] += 1
+    base[-1]["obs"]["npolls"] += 7       # more polls than the programs can cause (+1 can be another legal outcome)
     acc, rej, _ = check_task.validate(script, True, ["t1", "t2", "t3"], [base], WD, "st_t_m")
     record("Task_Trace rejects an execution with a corrupted poll count", len(rej) == 1)
 
